@@ -44,7 +44,8 @@ public:
   ~CPPManifest();
 
   static std::string stringify(const std::string &source);
-  static bool would_paste(char a, char b);
+  static bool would_paste(const std::string &left, size_t left_end,
+                          const std::string &right, size_t right_begin);
   void extract_args(vector_string &args, const std::string &expr, size_t &p) const;
   std::string expand(const vector_string &args = vector_string(),
                      bool expand_undefined = false,
